@@ -80,6 +80,10 @@ func RandomName(r *rand.Rand) obj.Name {
 // need care.
 func RandomString(r *rand.Rand) obj.Str {
 	alpha := []byte("ab(()))\\\r\n\t\b\f\x00\x01\x7f\x80\xfe\xff 0179<>%/nrtbf")
+	if r.Intn(8) == 0 {
+		// several lines of text: every LF may be spelled as a raw LF, CR or CR LF
+		alpha = []byte("ab\n\n\nc d")
+	}
 	n := r.Intn(9)
 	b := make([]byte, n)
 	for i := range b {
